@@ -863,7 +863,10 @@ def check_struct(d, t, by_name, mm, note):
             if oid != exp_id:
                 mm("member_id", "id", "%d (explicit) for '%s'" % (exp_id, mname), oid, "index" if oid == i else "other")
         elif src == "hashid":
-            if oid != exp_id:
+            # README: "MD5 hash of the field's name (first 4 bytes as a little-endian integer)";
+            # XTypes additionally masks with 0x0FFFFFFF. The documentation is ambiguous, so both the
+            # documented (unmasked) and the XTypes (masked) value are accepted; anything else is flagged.
+            if oid != exp_id and oid != ids["xtypes_unmasked"][i][0]:
                 cls = "unmasked_md5" if oid == ids["xtypes_unmasked"][i][0] else "other"
                 mm("member_id", "hashid", "0x%08X = md5('%s')[0..4] LE & 0x0FFFFFFF" % (exp_id, mname), "0x%08X" % oid if isinstance(oid, int) else oid, cls)
         else:
